@@ -100,6 +100,26 @@ int main(int argc, char **argv)
 		printf("[\"CMP\",%d,%d,\"%s priv=%d/%d\"]\n", sp, sv, d, ap, bp);
 		return 0;
 	}
+	if (!strcmp(a.mode, "verdicts")) {
+		/* the library's own verdict on each line of --arg2 under the first key of --arg1 (configured as jwt-verify configures its checker:
+		 * setkey with the key's alg, nothing else): ["VD", line, rc] */
+		jwk_set_t *s = jwks_create_fromfile(a.arg1);
+		const jwk_item_t *it = s ? jwks_item_get(s, 0) : NULL;
+		jwt_checker_t *c = jwt_checker_new();
+		FILE *f = fopen(a.arg2, "r");
+		static char line[200000];
+		long n = 0;
+		if (!it || jwks_item_error(it) || !c || !f) vh_harness_fail("verdicts: cannot load key or token file");
+		if (jwt_checker_setkey(c, jwks_item_alg(it), it)) vh_harness_fail("verdicts: setkey: %s", jwt_checker_error_msg(c));
+		while (fgets(line, sizeof(line), f)) {
+			line[strcspn(line, "\n")] = 0;
+			printf("[\"VD\",%ld,%d]\n", n++, jwt_checker_verify(c, line) ? 1 : 0);
+		}
+		fclose(f);
+		jwt_checker_free(c);
+		jwks_free(s);
+		return 0;
+	}
 	if (!strcmp(a.mode, "import")) {
 		jwk_set_t *s = jwks_create_fromfile(a.arg1);
 		const jwk_item_t *it = s ? jwks_item_get(s, 0) : NULL;
